@@ -416,4 +416,72 @@ theorem loopK_plain_all (c : Cfg) (useMask : Bool) : ∀ (sends : List Send) (k 
     · show loopK c F k (plainFrame useMask s ++ plainWire useMask ss) = _
       rw [he1, he2]
 
+/-- The sends the writer actually puts on the wire.  Once `_closing` is set, data frames are
+refused with `ClientConnectionResetError` (`opcode & 8 = 0`) and write nothing; control frames
+still pass.  `_closing` is set by a CLOSE frame written through `send_frame` when the code
+latches there (`Gen.C11.closeLatchesInSendFrame`, probed from the source on every run). -/
+def accepted : Bool → List Send → List Send
+  | _, [] => []
+  | cl, s :: ss =>
+    if cl = true ∧ s.opcode &&& 8 = 0 then accepted cl ss
+    else s :: accepted (cl || (Gen.C11.closeLatchesInSendFrame && s.opcode == 8)) ss
+
+theorem accepted_subset {s : Send} : ∀ {l : List Send} {cl : Bool}, s ∈ accepted cl l → s ∈ l := by
+  intro l
+  induction l with
+  | nil => intro cl h; simp [accepted] at h
+  | cons a r ih =>
+    intro cl h
+    simp only [accepted] at h
+    split at h
+    · exact List.mem_cons_of_mem _ (ih h)
+    · simp at h
+      rcases h with h | h
+      · simp [h]
+      · exact List.mem_cons_of_mem _ (ih h)
+
+/-- without a CLOSE among them (and the writer not closing) every send is accepted -/
+theorem accepted_of_no_close : ∀ (l : List Send), (∀ s ∈ l, s.opcode ≠ 8) → accepted false l = l := by
+  intro l
+  induction l with
+  | nil => intro _; rfl
+  | cons a r ih =>
+    intro h
+    have ha : a.opcode ≠ 8 := h a (by simp)
+    simp only [accepted]
+    have hb : (a.opcode == 8) = false := by simp [ha]
+    simp [ha, hb, ih (fun s hs => h s (by simp [hs]))]
+
+/-- one accepted step of the writer on the `WS` part: bytes appended, flags afterwards -/
+theorem sendFrameZ_accepted (cfg : WCfg) (w : WS) (s : Send) (rsv : Nat) (wire zout : Bytes)
+    (hno : ¬ (w.closing = true ∧ s.opcode &&& 8 = 0)) (ht : w.transportClosing = false)
+    (hfb : ¬ ((0x80 ||| rsv ||| s.opcode) > 255 ∨ wire.length ≥ 2 ^ 64))
+    (hr : framePlan cfg s.payload s.opcode s.compress zout = (wire, rsv)) :
+    (sendFrameZ cfg w s.payload s.opcode s.compress s.maskKey zout).1.out =
+        w.out ++ (frameHeader (0x80 ||| rsv ||| s.opcode) (if cfg.useMask then 0x80 else 0) wire.length ++
+                  wirePayload cfg.useMask s.maskKey wire) ∧
+    (sendFrameZ cfg w s.payload s.opcode s.compress s.maskKey zout).1.transportClosing = false ∧
+    (sendFrameZ cfg w s.payload s.opcode s.compress s.maskKey zout).1.closing =
+        (w.closing || (Gen.C11.closeLatchesInSendFrame && s.opcode == 8)) := by
+  unfold sendFrameZ
+  rw [if_neg hno]
+  simp only [hr]
+  unfold writeFrame
+  simp only [hfb, if_false, ht, Bool.false_eq_true]
+  cases hm : cfg.useMask <;> cases hl : Gen.C11.closeLatchesInSendFrame <;>
+    by_cases h8 : s.opcode = 8 <;>
+    simp [afterSend, wirePayload, ht, h8, hl] <;> (split <;> simp [ht]) <;> (intro h; exact absurd h h8)
+
+theorem accepted_append_last : ∀ (l : List Send) (last : Send), (∀ s ∈ l, s.opcode ≠ 8) →
+    accepted false (l ++ [last]) = l ++ [last] := by
+  intro l
+  induction l with
+  | nil => intro last _; simp [accepted]
+  | cons a r ih =>
+    intro last h
+    have ha : a.opcode ≠ 8 := h a (by simp)
+    have hb : (a.opcode == 8) = false := by simp [ha]
+    simp only [List.cons_append, accepted]
+    simp [hb, ih last (fun s hs => h s (by simp [hs]))]
+
 end Aio.C11
